@@ -130,8 +130,8 @@ def make_callable(fname, argnames, counter, raise_at):
 def generate(st):
     sw, g, f = st.swarm, st.gen, st.fault
     cfg = {
-        'n_ops': sw.choice([5, 8, 12, 16, 24, 40]),
-        'max_rows': sw.choice([2, 3, 4, 6, 6, 25]),
+        'n_ops': sw.choice([5, 8, 12, 16, 24, 40] + ([60, 90] if getattr(st, 'deep', False) else [])),
+        'max_rows': sw.choice([2, 3, 4, 6, 6, 25] + ([40] if getattr(st, 'deep', False) else [])),
         'cols': sorted(sw.sample(COLS, sw.randint(2, 6))),
         'cells': sorted(sw.sample(range(len(CELLS)), sw.randint(3, len(CELLS)))),
         'faulty': sw.random() < 0.6,
